@@ -13,7 +13,7 @@ git apply $D/patch.diff
 if ! go build ./... 2>/tmp/try_build.log; then echo "$name: BUILD FAILS"; git checkout -q -- .; exit 1; fi
 suite=$(go test -vet=off -count=1 ./... 2>&1 | grep -v "^ok\|no test files" | head -5)
 if [ -n "$suite" ]; then echo "$name: SUITE NOT GREEN: $suite"; else echo "$name: suite green with change"; fi
-demo=$(ls $D/*.go | head -1)
+demo=$(ls $D/*.go $D/*.go.txt 2>/dev/null | head -1)
 pk=$(grep -m1 '^package ' $demo | awk '{print $2}')
 mkdir -p $W/$TGT; cp $demo $W/$TGT/zz_seed_demo_test.go
 with=$(go test -vet=off -count=1 -tags c01demo -run Test ./$TGT/ 2>&1 | tail -1)
